@@ -77,7 +77,106 @@ impl<'a> Body for PairBody<'a> {
     }
 }
 
+/// C14, second half: the delegate size limits apply to every delegated piece, the order of
+/// the builder calls does not matter, and generous limits change nothing.
+fn builder_options(cfg: &RunCfg, item: &Item, rep: &mut PatReport) -> bool {
+    use crate::RegexBuilder;
+    let p = &item.pattern;
+    let b = match symx_api::build(p, false, None) {
+        Ok(b) => b,
+        Err(e) => {
+            rep.status = std::format!("rejected:{}", e);
+            return false;
+        }
+    };
+    let prop = cfg.prop.clone();
+    let mk = |what: String, limit: usize, arg: usize, observed: &str, expected: &str| crate::props::Cand {
+        prop: prop.clone(),
+        what,
+        op: "build_opts".to_string(),
+        pattern: p.clone(),
+        casei: false,
+        limit: Some(limit),
+        text: Vec::new(),
+        pos: 0,
+        arg,
+        observed: observed.to_string(),
+        expected: expected.to_string(),
+    };
+    let okstr = |b: bool| if b { "OK" } else { "ERR" };
+    for limit in [10usize, 300, 20_000].iter() {
+        // what regex-automata itself says about every piece this pattern hands to it
+        let pieces_ok = b.delegate_log.iter().all(|(d, sc)| {
+            regex_automata::meta::Builder::new()
+                .configure(regex_automata::meta::Config::new().nfa_size_limit(Some(*limit)))
+                .syntax(sc.clone())
+                .build(d)
+                .is_ok()
+        });
+        let dfa = 1usize << 22;
+        let r0 = RegexBuilder::new(p).delegate_size_limit(*limit).build().is_ok();
+        let r1 = RegexBuilder::new(p).delegate_size_limit(*limit).delegate_dfa_size_limit(dfa).build().is_ok();
+        let r2 = RegexBuilder::new(p).delegate_dfa_size_limit(dfa).delegate_size_limit(*limit).build().is_ok();
+        rep.bump(if pieces_ok { "size_limit_builds_accepted" } else { "size_limit_builds_rejected" }, 1);
+        for (arg, r) in [(0usize, r0), (1, r1), (2, r2)].iter() {
+            if *r != pieces_ok {
+                let c = mk(
+                    std::format!(
+                        "delegate_size_limit({}){}: the build is {} although {} of its delegated pieces fits the limit",
+                        limit,
+                        match arg { 0 => "", 1 => " then delegate_dfa_size_limit", _ => " after delegate_dfa_size_limit" },
+                        if *r { "accepted" } else { "rejected" },
+                        if pieces_ok { "every one" } else { "not every one" }
+                    ),
+                    *limit,
+                    *arg,
+                    okstr(*r),
+                    okstr(pieces_ok),
+                );
+                rep.candidates.push(c);
+                return true;
+            }
+        }
+    }
+    true
+}
+
 pub fn process_pair(cfg: &RunCfg, item: &Item, rep: &mut PatReport) {
+    if item.gen == "builder-options" {
+        if !builder_options(cfg, item, rep) || !rep.candidates.is_empty() {
+            return;
+        }
+        // generous limits change nothing: twin programs on the symbolic text
+        let a = match symx_api::build(&item.pattern, false, None) {
+            Ok(a) => a,
+            Err(_) => return,
+        };
+        let b = match symx_api::build_sized(&item.pattern, false, Some(999_999), Some((1 << 28, 1 << 28))) {
+            Ok(b) => b,
+            Err(e) => {
+                rep.candidates.push(crate::props::Cand {
+                    prop: cfg.prop.clone(),
+                    what: std::format!("generous limits make the build fail: {}", e),
+                    op: "build_opts".to_string(),
+                    pattern: item.pattern.clone(),
+                    casei: false,
+                    limit: Some(1 << 28),
+                    text: Vec::new(),
+                    pos: 0,
+                    arg: 1,
+                    observed: "ERR".to_string(),
+                    expected: "OK".to_string(),
+                });
+                return;
+            }
+        };
+        rep.insn_kinds = a.insn_kinds | b.insn_kinds;
+        rep.fancy = a.fancy;
+        let classes = union_classes(&a.classes, &b.classes);
+        let body = PairBody { a: &a, b: &b, casei_a: false, what: "generous backtrack / size limits change the result" };
+        drive(&cfg.prop, &body, &classes, cfg.n, cfg, rep);
+        return;
+    }
     let variant = match &item.variant {
         Some(v) => v.clone(),
         None => {
@@ -1252,6 +1351,11 @@ pub fn work_list(cfg: &RunCfg) -> Option<WorkList> {
                 it.variant = Some(std::format!("(?i){}", p));
                 fixed.push(it);
             }
+            // the other builder options (backtrack_limit, delegate size limits)
+            for p in ["a", "a+", "\\w+x", "[a-z]{3}b", "(?:a|b)*c", "\\pL+", "a+(?=b)", "\\w+x(?=y)", "(\\w+)x\\1", "(?<=a)\\w+", "(?>\\w+)x|[a-z]{3}(?!b)", "\\d+(?=)\\w+", "(a)\\1",
+                      "\\bfoo\\b", "(?i)\\w+x(?!y)"].iter() {
+                fixed.push(Item::new(p, "builder-options"));
+            }
             Some(WorkList { fixed, random_enabled: true, feats: (corpus::FEATS_C01 | corpus::F_CASE) & !corpus::F_MULTIBYTE, max_depth: 3 })
         }
         "C07" | "C20" => {
@@ -1354,6 +1458,13 @@ pub fn work_list(cfg: &RunCfg) -> Option<WorkList> {
                       "[[:alpha:]]", "[^\\-a]", "[\\x41-\\x43]", "[\\d\\-a]", "[a\\.b]", "[\\n]", "[ \\t]", "[.]", "[*+?]", "[\\w&&[^_]]", "[a-c&&b-d]", "[a\\-c-e]", "[\\+\\-\\*]", "[^\\]]", "[a^]", "[a\\|b]"].iter() {
                 for h in ["X\\b", "\\bX+\\b", "X+", "(?i)X\\B.", "(X)\\b|a"].iter() {
                     fixed.push(Item::new(&h.replace("X", c), "class-syntax"));
+                }
+            }
+            for h in ["\\b", "\\B."].iter() {
+                for w in corpus::start_anchor_shapes(h).iter() {
+                    if !w.contains("(?!") && !w.contains("(?=") && !w.contains("(?>") && !w.contains("(?<=") {
+                        fixed.push(Item::new(w, "start-anchor-shapes"));
+                    }
                 }
             }
             let ex = corpus::exhaustive(&ATOMS_COMMON, &OPS_COMMON, if thorough { 4 } else { 3 });
